@@ -30,10 +30,10 @@ def generate(tier, rng):
         sc = gen.pick_scale(rng, decimal_share=0.5)
         big = 60 if sc[0] == "dyadic" else 3000
         if rng.random() < 0.85:
-            t = gen.random_itier(rng, tmax=big, maxn=8)
+            t = gen.random_itier(rng, tmax=big, maxn=8, long_p=0.015)
             op = rng.choice(["space", "space_erase"])
         else:
-            t = gen.random_ptier(rng, tmax=big)
+            t = gen.random_ptier(rng, tmax=big, long_p=0.015)
             op = "space"
         if rng.random() < 0.12:
             t = gen.shift_tier(t, -rng.randint(1, big))            # times before 0 are ordinary times here
